@@ -882,7 +882,10 @@ class Engine:
         st.vars[target.value.id] = base.with_(kv=nkv)
       elif base.kv is not None and isinstance(target.value, ast.Name):
         st.vars[target.value.id] = base.with_(kv=None)
-      self.dom.on_store_subscript(base, idx, v, stmt, st)
+      r = self.dom.on_store_subscript(base, idx, v, stmt, st)
+      if r is not None and isinstance(target.value, ast.Name):
+        # weak update of the content abstraction of a local array
+        st.vars[target.value.id] = base.with_(d=r)
     elif isinstance(target, ast.Starred):
       self.assign(target.value, v, st, func, stmt)
 
@@ -1288,8 +1291,9 @@ class Engine:
       ev = self.dom.iter_elem(itv, g, work)
       self.assign(g.target, ev, work, func, g)
       for cond in g.ifs:
-        self.eval(cond, work, func)
+        cvv = self.eval(cond, work, func)
         self.refine(cond, True, work, func)
+        self.dom.on_branch(cond, cvv, True, g, work)
     elts = [self.eval(x, work, func) for x in elt_nodes]
     # effects on heap/aux inside comprehension are kept
     for k, v in work.vars.items():
